@@ -233,6 +233,78 @@ def x5_predicates(F, R):
     R.count('selection_predicates', nfold)
 
 
+VSOCK_OPS = {1: 'ConnectionRequest', 2: 'Connected', 3: 'Disconnected', 4: 'Disconnected', 5: 'Received', 6: 'CreditUpdate', 7: 'CreditRequest'}
+
+
+def x10_event_decoding(F, R):
+    """A received header is turned into the event the protocol defines for its operation code (1 request, 2 response, 3 reset,
+    4 shutdown, 5 data, 6 credit update, 7 credit request); reset and shutdown are told apart in the disconnect reason; control
+    packets that carry data are refused."""
+    n = 0
+    for b in F.bodies.values():
+        if not F.handwritten(b) or b['kind'] != 'AssocFn' or 'device::socket' not in b['id'] or b['arg_count'] != 1:
+            continue
+        sig = b.get('sig', '')
+        if 'VirtioVsockHdr' not in sig.split('->')[0] or 'VsockEvent' not in sig.split('->')[-1] or b.get('impl_adt', '').rsplit('::', 1)[-1] != 'VsockEvent':
+            continue
+        sg = supergraph(F, b['id'])
+        where = fn_site(F, b['id'])
+        try:
+            paths = [p for p in PathEnum(sg).run() if not p.panicked]
+        except PathLimit as e:
+            R.abstain('X1', b['id'] + ':event-decoding', str(e), where)
+            continue
+        n += 1
+        bad = None
+        rows = 0
+        for op in range(0, 9):
+            for ln in (0, 5):
+                def leaf(t, op=op, ln=ln):
+                    s_ = fmt(t)
+                    if t[0] in ('load0', 'load') and s_.endswith('.op)') or s_.endswith('.op'):
+                        return op
+                    if t[0] in ('load0', 'load') and (s_.endswith('.len)') or s_.endswith('.len')):
+                        return ln
+                    if 'log::' in s_:
+                        return 0
+                    raise Unfoldable(s_[:60])
+                fo = Folder(leaf)
+                try:
+                    hit = [p for p in paths if path_holds(fo, p)]
+                except Unfoldable as e:
+                    bad = 'unfoldable: %s' % e
+                    break
+                rows += 1
+                if len(hit) != 1:
+                    bad = 'op %d len %d: %d feasible paths' % (op, ln, len(hit))
+                    break
+                r = hit[0].ret
+                ev = err_variant(r)
+                want = VSOCK_OPS.get(op)
+                if want is None or (ln and want != 'Received'):
+                    if ev == 'Ok':
+                        bad = 'op %d with %d payload bytes is accepted' % (op, ln)
+                        break
+                    continue
+                got = [x[1].rsplit('::', 1)[1] for x in subterms(r) if x[0] == 'agg' and '::VsockEventType::' in x[1]]
+                if ev != 'Ok' or got[:1] != [want]:
+                    bad = 'op %d is decoded as %s, the protocol says %s' % (op, got[:1] or ev, want)
+                    break
+                if want == 'Disconnected':
+                    rs = [x[1].rsplit('::', 1)[1] for x in subterms(r) if x[0] == 'agg' and '::DisconnectReason::' in x[1]]
+                    if rs[:1] != [{3: 'Reset', 4: 'Shutdown'}[op]]:
+                        bad = 'op %d (%s) is reported with disconnect reason %s' % (op, {3: 'RST', 4: 'SHUTDOWN'}[op], rs[:1])
+                        break
+            if bad:
+                break
+        R.tables += rows
+        if bad and bad.startswith('unfoldable'):
+            R.abstain('X1', b['id'] + ':event-decoding', bad, where)
+            continue
+        R.check(bad is None, 'X1', '%s:event-decoding' % b['id'], where, 'operation codes 1..7 decode to the protocol\'s events (%d rows)' % rows, 'event decoding: %s' % bad)
+    R.count('event_decoders', n)
+
+
 def x6_listen(F, R, listen_field):
     n = 0
     for b in F.bodies.values():
@@ -261,6 +333,48 @@ def x6_listen(F, R, listen_field):
             R.check(bad is None, 'X6', '%s:insert-guard' % b['id'], site(sg, c), 'port inserted unless already in the listening set (no other condition)',
                     'listen() does not make the port listening whenever it is not yet in the listening set: %s; a request to that port is then reset instead of accepted' % bad)
     R.count('listen_inserts', n)
+    # unlisten keeps exactly the ports that differ from the argument: the predicate handed to retain on the listening set is
+    # folded (keep(p) iff p != port)
+    for b in F.bodies.values():
+        if b.get('impl_adt') != MGR or 'impl_trait' in b or b['kind'] != 'AssocFn' or not F.handwritten(b) or not b.get('pub'):
+            continue
+        sg = supergraph(F, b['id'], tag='flat', max_depth=0)
+        S = sg.sym
+        for c in sg.calls(lambda d: d.get('fn', '').startswith('alloc::vec::Vec::') and d['fn'].rsplit('::', 1)[1] in ('retain', 'retain_mut')):
+            recv = S.operand(c.id, c.d['args'][0])
+            if not any(x[0] == 'loc' and any(pp[0] == 'f' and pp[1] == listen_field and pp[2] == MGR for pp in x[2]) for x in deep_subterms(S, recv)):
+                continue
+            clo = strip_conv(S.operand(c.id, c.d['args'][1]))
+            cid = clo[1][len('closure:'):] if clo[0] == 'agg' and clo[1].startswith('closure:') else None
+            cb = F.bodies.get(cid) if cid else None
+            if cb is None:
+                R.abstain('X6', '%s:unlisten-predicate' % b['id'], 'retain predicate is not a closure of this function', site(sg, c))
+                continue
+            paths = [p for p in PathEnum(supergraph(F, cid)).run() if not p.panicked]
+            bad = None
+            for item, port in ((5, 5), (5, 6), (6, 5), (0, 0), (0, 0xffffffff)):
+                def leaf(t, item=item, port=port):
+                    # the closure's argument is the element, its captured variable the port
+                    if any(x == ('param', 2) for x in subterms(t)):
+                        return item
+                    if any(x == ('param', 1) for x in subterms(t)):
+                        return port
+                    raise Unfoldable(fmt(t)[:60])
+                fo = Folder(leaf)
+                try:
+                    hit = [p for p in paths if path_holds(fo, p)]
+                    got = fo.ev(hit[0].ret) if len(hit) == 1 else None
+                except Unfoldable as e:
+                    got = None
+                if got is None:
+                    R.abstain('X6', '%s:unlisten-predicate' % b['id'], 'cannot fold the retain predicate', site(sg, c))
+                    bad = 'abstain'
+                    break
+                if bool(got) != (item != port):
+                    bad = 'port %d is %s when port %d is unlistened' % (item, 'kept' if got else 'removed', port)
+                    break
+            if bad != 'abstain':
+                R.check(bad is None, 'X6', '%s:unlisten-predicate' % b['id'], site(sg, c), 'unlisten keeps exactly the other ports', 'unlisten: %s' % bad)
 
 
 def x7_shutdown_flag(F, R):
@@ -306,6 +420,7 @@ def x7_shutdown_flag(F, R):
 def run(F, R):
     x5_predicates(F, R)
     x7_shutdown_flag(F, R)
+    x10_event_decoding(F, R)
     M = model(F)
     M.require_rings()
     roles = C05.classify_api(C05.queue_api(F, M))
@@ -378,6 +493,39 @@ def run(F, R):
             else:
                 R.violated('X3', inst, site(sg, n), 'the connection table is mutated with Vec::%s, which does not target the connection that was looked up '
                            '(an unrelated connection can be dropped)' % meth)
+        # X9 a peer's disconnect on a drained connection closes it: on every successful path of the poll method on which the event is a
+        # disconnect and the receive buffer is empty, the looked-up entry is removed; a reset is sent exactly on the edge where the
+        # reason equals the constant it is compared with (the peer *shut down*; after a peer reset nothing is sent back)
+        if b['kind'] == 'AssocFn' and b.get('pub') and any(True for _ in sg.calls(lambda d: d.get('fn') in sock_ops and sock_ops[d['fn']] == 'poll')) and not back_edges(sg):
+            try:
+                pths = [p_ for p_ in PathEnum(sg).run() if not p_.panicked]
+            except PathLimit:
+                pths = []
+            bad9 = None
+            seen9 = 0
+            for p_ in pths:
+                emp = None
+                for c_ in p_.conds:
+                    d_ = c_[0]
+                    if d_[0] == 'call' and d_[2] in ring and d_[2].endswith('::is_empty'):
+                        emp = (c_[1][0] == 'notin' and 0 in c_[1][1]) or (c_[1][0] == 'in' and 0 not in c_[1][1])
+                if not emp:
+                    continue
+                rc = [c_ for c_ in p_.conds if c_[0][0] == 'bin' and c_[0][1] in ('Eq', 'Ne') and 'Disconnected).reason' in fmt(c_[0])]
+                if not rc:
+                    continue
+                seen9 += 1
+                truth = (rc[-1][1][0] == 'notin' and 0 in rc[-1][1][1]) or (rc[-1][1][0] == 'in' and 0 not in rc[-1][1][1])
+                equal = truth if rc[-1][0][1] == 'Eq' else not truth
+                fc = any(e_[0] == 'call' and sock_ops.get(e_[2]) == 'force_close' for e_ in p_.effects)
+                rm = any(e_[0] == 'call' and e_[2].startswith('alloc::vec::Vec::') and e_[2].rsplit('::', 1)[1] in ('swap_remove', 'remove') for e_ in p_.effects)
+                if fc != equal:
+                    bad9 = 'a reset is sent on the edge where the disconnect reason %s the compared constant' % ('differs from' if fc else 'equals')
+                if err_variant(p_.ret) == 'Ok' and not rm:
+                    bad9 = 'the entry of a drained connection is not removed when the peer disconnects'
+            if seen9:
+                R.check(bad9 is None, 'X3', '%s:disconnect-closes-drained-connection' % b['id'], where, 'drained connection removed on disconnect; reset only for the compared reason (%d paths)' % seen9,
+                        'peer disconnect handling: %s' % bad9)
         # X2 lookups first
         if b.get('pub') and 'VsockAddr' in b.get('sig', '') and ems:
             n_ops += 1
